@@ -338,8 +338,25 @@ def sym_input(E, unit, name='s'):
     return x, chars
 
 
+def _prio(u):
+    if not isinstance(u, dict):
+        return 0
+    if 'prio' in u:
+        return u['prio']
+    if u.get('kind') == 'shapes':
+        return 0
+    if 'shape' in u:
+        return 2
+    if 'literal' in u:
+        return 1
+    return 0
+
+
 def shuffle_units(units):
+    """seeded shuffle within priority classes: whole-module units first, then neighbourhood units, then container shapes,
+    so that the global time budget of the quick tier cuts the cheapest-to-lose units"""
     r = random.Random(seed())
     units = list(units)
     r.shuffle(units)
+    units.sort(key=_prio)
     return units
